@@ -618,8 +618,17 @@ class Share:
                 # They might be asking for a segment number that is beyond
                 # what we guess the file contains, but _desire_block_hashes
                 # and _desire_data will tolerate that.
-                self._desire_block_hashes(desire, o, segnum)
-                self._desire_data(desire, o, r, segnum, segsize)
+                if self._node.have_UEB:
+                    seg_desire = desire
+                else:
+                    # Until the UEB tells us the real segment size, the
+                    # segment number is only a guess (it is rejected with
+                    # BADSEGNUM later if it is out of range), so data
+                    # located through it is merely wanted, never needed: its
+                    # absence must not condemn the share.
+                    seg_desire = (want_it, want_it, gotta_gotta_have_it)
+                self._desire_block_hashes(seg_desire, o, segnum)
+                self._desire_data(seg_desire, o, r, segnum, segsize)
 
         log.msg("end _desire: want_it=%s need_it=%s gotta=%s"
                 % (want_it.dump(), need_it.dump(), gotta_gotta_have_it.dump()),
